@@ -34,7 +34,7 @@ def junk_attrs(name, kind):
 
 
 JUNK_KINDS = ['empty', 'badPHid', 'badUHid', 'truncInHeaders', 'truncAfterHeaders', 'truncAfterSRC',
-              'corruptLater', 'random', 'pceSize', 'badUtf8Creator', 'badUtf8Src', 'hugeWordCount', 'noPrimarySrc', 'countTwo']
+              'corruptLater', 'random', 'pceSize', 'badUtf8Creator', 'badUtf8Src', 'hugeWordCount', 'noPrimarySrc', 'countTwo', 'byteflip', 'byteflip', 'byteflip']
 
 
 def make_junk(rng, kind, base_pel):
@@ -65,6 +65,10 @@ def make_junk(rng, kind, base_pel):
         data[72 + 8 + 8 + 32 + 3] = 0xFF    # a byte of the reference code (first optional section is the SRC)
     elif kind == 'hugeWordCount':
         data[72 + 8 + 3] = 200              # valid word count far beyond the 9 words
+    elif kind == 'byteflip':
+        # an arbitrary single-byte corruption (most land in the headers / the SRC, where they matter)
+        off = rng.randrange(0, min(len(data), 160)) if rng.random() < .8 else rng.randrange(len(data))
+        data[off] = rng.choice([0x00, 0xFF, data[off] ^ 0x80, data[off] ^ 0x01, rng.randrange(256)])
     elif kind == 'noPrimarySrc':
         data[73] = ord('X')                 # the first optional section is no longer a Primary SRC: decodable,
         #                                     but the SRC look-ups have nothing to match
